@@ -259,6 +259,10 @@ std::string run_session(const std::string& line, int line_no) {
                     w += S.exp->write_block(blk);
                 }
                 r = std::to_string(w);
+            } else if (op == "ABA") {
+                // the argument is a reference INTO the exporter's own preamble (parameter set #arg duplicated)
+                CDNS::BlockParameters& own = S.exp->m_file_preamble.m_block_parameters.at(rec::U(arg));
+                r = "i" + std::to_string(S.exp->add_block_parameters(own));
             } else if (op == "AB") {
                 r = "i" + std::to_string(S.exp->add_block_parameters(S.bps.at(rec::U(arg))));
             } else if (op == "EH") {
